@@ -24,7 +24,7 @@ package main
 // E_OTHER, so that the generated function is "recognised but different").  Anything else: "source
 // shape not recognised" (translator tie unavailable).
 //
-// Output: coq/Gen/SerCode.v.
+// The decoder internalUnmarshal: c12_deccode.go.  Output: coq/Gen/SerCode.v.
 
 import (
 	"fmt"
